@@ -28,7 +28,7 @@ NAMES = ["std", "upper", "alt", "noext"]     # file-name shapes for the writers 
 ALT = {"h5": "hdf5", "nc": "cdf", "pdb": "ent", "xtc": "part0001", "dcd": "coor", "rst7": "inpcrd", "ncrst": "rst",
        "mdcrd": "traj", "crd": "traj", "gro": "g96x", "dtr": "stk0"}
 RULE = ("case = (extension, pre-existing content at the path {valid file of the format, longer valid file, unrelated bytes, empty "
-        "file, directory-vs-file mismatch, a subset of the numbered file.N restart outputs}, 1 or 3 frames, force_overwrite, entry "
+        "file, directory-vs-file mismatch, a subset of the numbered file.N restart outputs}, 1 or 3 frames, with or without a unit cell, force_overwrite, entry "
         "point {Trajectory.save, md.open(mode='w'), the format's own Trajectory.save_<fmt> method, the format's file class "
         "opened with mode='w', read entry points}, file-name shape for the last two {usual extension, upper-cased, another "
         "suffix such as .hdf5/.inpcrd/.dat, no suffix}, path shape {absolute str, relative str, pathlib.Path}); "
@@ -68,6 +68,11 @@ def enumerate_cases(tier):
                     if ext in OPENABLE and pre != "partial-numbered":
                         yield {"ext": ext, "pre": pre, "nf": nf, "force": force, "via": "open", "path": "abs", "seed": 0}
         yield {"ext": ext, "pre": "same", "nf": 3, "force": False, "via": "read", "path": "abs", "seed": 0}
+        for via in ("save", "method"):
+            for nf in (1, 3):
+                for force in (False, True):
+                    # the same for a trajectory that carries no unit cell
+                    yield {"ext": ext, "pre": "longer", "nf": nf, "force": force, "via": via, "path": "abs", "seed": 0, "nocell": True}
         for via in ("method", "class"):
             if via == "class" and ext not in CLASS:
                 continue
@@ -96,14 +101,16 @@ def strategy(draw, tier="quick"):
     nm = "std"
     if via in ("method", "class") and not ext.endswith(".gz"):
         nm = draw(st.sampled_from(NAMES))
-    return {"ext": ext, "name": nm, "pre": pre, "nf": nf, "force": draw(st.booleans()), "via": via,
+    return {"ext": ext, "name": nm, "nocell": draw(st.integers(0, 2)) == 0, "pre": pre, "nf": nf, "force": draw(st.booleans()), "via": via,
             "path": draw(st.sampled_from(["abs", "rel", "pathlib"])), "seed": draw(st.integers(0, 5)),
             "na": draw(st.sampled_from([3, 9, 10, 12])), "old_nf": draw(st.integers(1, 15))}
 
 
-def _traj(nf, na, seed, ext):
+def _traj(nf, na, seed, ext, nocell=False):
     cell = "ortho"
     if not files.FORMATS.get(ext, {"cell": True})["cell"]:
+        cell = None
+    if nocell and not files.FORMATS.get(ext, {}).get("need_cell"):
         cell = None
     return files.file_traj(nf, na, cell, seed, time="offset")
 
@@ -194,9 +201,12 @@ def run_case(case):
         nf = 1   # a restart file object holds one frame and writes to the path itself
     if via in ("open", "class") and case["path"] == "pathlib":
         case = dict(case, path="abs")  # path-like support of the file classes is not this property's subject
-    new = _traj(nf, na, case["seed"] + 100, ext)
+    nocell = bool(case.get("nocell"))
+    if nocell:
+        labels.append("trajectory-without-cell")
+    new = _traj(nf, na, case["seed"] + 100, ext, nocell)
     old_nf = {"same": nf, "longer": nf + case.get("old_nf", 6)}.get(pre, nf)
-    old = _traj(old_nf, na, case["seed"], ext)
+    old = _traj(old_nf, na, case["seed"], ext, nocell)
     cwd = os.getcwd()
     with warnings.catch_warnings(), files.scratch() as d:
         warnings.simplefilter("ignore")
@@ -241,7 +251,7 @@ def run_case(case):
                         open(os.path.join(t, "keep.txt"), "w").write("keep me")
             elif pre == "partial-numbered":
                 targets = _targets(full, ext, nf)
-                put(_traj(nf, na, case["seed"], ext), full)
+                put(_traj(nf, na, case["seed"], ext, nocell), full)
                 for t in targets[:1] + targets[2:]:
                     os.remove(t)   # only file.2 of file.1..file.N exists
             before = _snapshot(d)
